@@ -89,6 +89,9 @@ EventOK(e) ==
   CASE e.op = "vrfprove" -> ProveOK(e)
     [] e.op = "vrfverify" -> VerifyOK(e)
     [] e.op = "vrfp2h" -> e.p2hok = P2HSpec(e)[1]          \* proof decoder alone: canonical Gamma and s < L
+    \* input-length sweep: an honest proof verifies for its alpha and for no other input (Ecvrf.tla: Verify recomputes
+    \* H = encode_to_curve(Y || alpha); MC_C15 Uniqueness/Completeness); the verdict follows from the request's class
+    [] e.op = "vrfsweep" -> e.same = TRUE /\ e.last = FALSE /\ e.trunc = FALSE /\ e.app = FALSE
     [] OTHER -> FALSE
 
 VARIABLE l
